@@ -116,3 +116,82 @@ def filter_ok(name: str, on_partial: bool, setting: bool, as_bytes: bool) -> boo
 def replay_filter(name, on_partial, setting, as_bytes):
     ok = filter_ok(name, on_partial, setting, as_bytes)
     return (f"attribute filter called with ({'<partial helper>' if on_partial else '<tuple>'}, {name!r}{' as bytes' if as_bytes else ''})", not ok, "underscore / non-str attribute or an attribute of a context-bound helper is granted to Lua")
+
+
+# ---------------------------------------------------------------- Python -> Lua value conversion (mw.text.jsonDecode)
+_jd = slicer.find(_tree, ast.FunctionDef, lambda n: n.name == "mw_text_jsondecode")
+_rec = slicer.find(_jd, ast.FunctionDef, lambda n: n.name == "recurse")
+for _a in ast.walk(_rec.args):
+    if isinstance(_a, ast.arg):
+        _a.annotation = None
+_rec.returns = None
+JSON_CONV, JSON_CONV_SRC = slicer.make_function("json_conv", "value, flags, table_from", "", _rec, "return recurse(value)", dict(vars(lx)), f"luaexec.py:{_rec.lineno}")
+
+
+class LuaTableStub:
+    """stands for lupa's table_from: a shallow copy into a Lua table (values are taken as they are)"""
+
+    def __init__(self, x):
+        self.items = list(x.items()) if isinstance(x, dict) else list(enumerate(x, 1))
+
+
+JKEYS = ["a", "1", "2", "x y"]
+JSHAPES = [
+    lambda k0, k1: {k0: {k1: 1}},
+    lambda k0, k1: {k0: [1, {k1: 2}]},
+    lambda k0, k1: [{k0: {k1: []}}],
+    lambda k0, k1: {k0: 1, k1 + "_": {"x": [1, 2]}},
+    lambda k0, k1: [[{k0: 1}], {k1: [[3]]}],
+    lambda k0, k1: {k0: {"n": {k1: {"deep": [{}]}}}},
+]
+
+
+def _raw_python(v) -> bool:
+    if isinstance(v, (dict, list, tuple)):
+        return True
+    if isinstance(v, LuaTableStub):
+        for _, x in v.items:
+            if _raw_python(x):
+                return True
+    return False
+
+
+def json_converted(flags: int, shape: int, k0: int, k1: int) -> bool:
+    """every container mw.text.jsonDecode hands to Lua is a Lua table at every depth: no Python dict / list is reachable from
+    the result, whatever the flags (JSON_PRESERVE_KEYS = 1, JSON_TRY_FIXING = 2) and whatever the keys look like"""
+    value = JSHAPES[shape](JKEYS[k0], JKEYS[k1])
+    return not _raw_python(JSON_CONV(value, flags, LuaTableStub))
+
+
+JSON_PROBE = r"""
+local p = {}
+local function walk(v, path, out)
+  local t = type(v)
+  if t == "userdata" then out[#out + 1] = path .. ":" .. tostring(v):sub(1, 24) end
+  if t == "table" then for k, x in pairs(v) do walk(x, path .. "." .. tostring(k), out) end end
+end
+function p.f(frame)
+  local out = {}
+  walk(mw.text.jsonDecode(JSONTEXT, tonumber(frame.args[1])), "r", out)
+  return #out == 0 and "CLEAN" or table.concat(out, ";")
+end
+return p
+"""
+
+
+def replay_json_converted(flags, shape, k0, k1):
+    import json
+
+    from vf.wtpfix import close, new_ctx
+
+    value = JSHAPES[shape](JKEYS[k0], JKEYS[k1])
+    s = json.dumps(value)
+    # the JSON text is embedded in the module as a Lua long string (wikitext would mangle braces and bars)
+    w = new_ctx(modules={"vfjson": "local JSONTEXT = [==[" + s + "]==]\n" + JSON_PROBE})
+    w.start_page("T")
+    try:
+        got = w.expand("{{#invoke:vfjson|f|" + str(flags) + "}}")
+    except Exception as e:  # noqa: BLE001
+        got = f"EXC {type(e).__name__}: {e}"
+    close(w)
+    return (f"Lua mw.text.jsonDecode({s!r}, {flags}) inside #invoke, result walked recursively", got != "CLEAN", f"the decoded value reaches host objects: {got[:160]}")
